@@ -233,6 +233,52 @@ async def shared_quic(out, args, wd, oport):
         B.kill()
 
 
+async def halfclosed_after_outage(out, args, wd):
+    """the origin goes away in the orderly way (FIN) while the client is passive: the proxy can only half-close towards the client
+    at first, but the tunnel must not stay around for ever - with an idle period of 3 s it is gone (both sides closed, recorded)
+    a few seconds later"""
+    from .lib import http_connect
+    writers = set()
+    D = await TcpOrigin(reg_echo(writers), host="127.0.0.1").start()
+    P = {k: free_port() for k in ("http", "api")}
+    H = Proxy(args.bin, base_cfg([{"name": "http", "bind": "127.0.0.1:%d" % P["http"]}], [{"name": "direct"}], [{"target": "direct"}], metrics_port=P["api"], timeouts={"idle": 3, "udp": 3}), "HC", wd)
+    c = None
+    try:
+        await H.start()
+        out.case()
+        c = await open_conn("127.0.0.1", P["http"])
+        st, _ = await http_connect(c, "127.0.0.1", D.port)
+        c.write(b"hold")
+        await c.drain()
+        await c.read_exact(4, timeout=5)
+        src = c.local[1]
+        t0 = now()
+        for t in list(D.tasks):
+            t.cancel()
+        await D.stop()            # orderly close of every origin connection
+        gone_at = None
+        while now() - t0 < 3 + 1 + 4:
+            await asyncio.sleep(0.5)
+            live = await H.api_json("/live")
+            if not any(int(h["source"].rsplit(":", 1)[1]) == src for h in live):
+                gone_at = now() - t0
+                break
+        out.nontrivial(("direct", "orderly-origin-close", "passive-client", gone_at is not None))
+        if gone_at is None:
+            out.violation("tunnel whose origin went away is still open on the client side although the client stayed passive for longer than the idle period",
+                          {"idle_period_s": 3, "waited_s": round(now() - t0, 1)})
+        else:
+            out.sample({"scenario": "origin closed in the orderly way, passive client, idle 3 s", "tunnel_gone_after_s": round(gone_at, 1)})
+    finally:
+        if c is not None:
+            c.close()
+        H.kill()
+        try:
+            await D.stop()
+        except Exception:
+            pass
+
+
 async def main(args):
     from . import lib as _lib
     _lib.UNIQUE_SRC = True   # records are joined with connections by source port
@@ -532,7 +578,7 @@ async def main(args):
         await A.start()
         hs = asyncio.ensure_future(healthy_stream())
         await asyncio.sleep(0.3)
-        await asyncio.gather(*([run_scenario(s) for s in scen] + [udp_outage(out, args, wd), shared_quic(out, args, wd, O.port)]))
+        await asyncio.gather(*([run_scenario(s) for s in scen] + [udp_outage(out, args, wd), shared_quic(out, args, wd, O.port), halfclosed_after_outage(out, args, wd)]))
         stop_healthy.set()
         await hs
         bad = [(round(t, 1), r, round(l, 2)) for (t, r, l) in healthy if r != "ok" or l > 2.0]
